@@ -283,6 +283,12 @@ func (m *Master) serve(c net.Conn, p *ServePlan, rec *ConnRecord, nconn int) {
 			c.Close()
 			return
 		case 0x03:
+			if p.ConnFault == "set_drop_once" && nconn == 1 {
+				// the connection dies before the statement is answered
+				rec.addCmdOn(nconn, Cmd{Kind: "query", SQL: append([]byte(nil), cmd[1:]...), OK: false})
+				c.Close()
+				return
+			}
 			rec.addCmdOn(nconn, Cmd{Kind: "query", SQL: append([]byte(nil), cmd[1:]...), OK: p.ConnFault != "set_err"})
 			if p.ConnFault == "set_err" {
 				pc.write(errPacket(1193, "Unknown system variable 'binlog_checksum'"))
